@@ -82,6 +82,7 @@ class Path:
         self.prefix = list(prefix)
         self.decisions: list = []
         self.pc: list = []
+        self.pc_consts: set = set()
         self.solver = z3.Solver()
         self.solver.set("timeout", explorer.feas_timeout_ms)
         self.path_id = path_id
@@ -138,10 +139,39 @@ class Path:
         if z3.is_false(cond):
             raise PathEnd()
         self.pc.append(cond)
+        self._note_consts(cond)
         # quantified facts are kept for the obligations but not given to the (quantifier-free) feasibility solver:
         # dropping them only over-approximates the set of feasible paths
         if not _has_quantifier(cond):
             self.solver.add(cond)
+
+    def _note_consts(self, term):
+        """Record the uninterpreted constants occurring in the path condition (for the free-atom shortcut of `branch`)."""
+        seen = self.pc_consts
+        stack = [term]
+        visited = set()
+        while stack:
+            t = stack.pop()
+            tid = t.get_id()
+            if tid in visited:
+                continue
+            visited.add(tid)
+            if z3.is_quantifier(t):
+                stack.append(t.body())
+                continue
+            if z3.is_app(t):
+                if t.num_args() == 0:
+                    if t.decl().kind() == z3.Z3_OP_UNINTERPRETED:
+                        seen.add(t.decl().name())
+                else:
+                    stack.extend(t.children())
+
+    def _free_atom(self, c):
+        """c is a Boolean constant (or its negation) that does not occur in the path condition: both outcomes are feasible."""
+        if z3.is_not(c):
+            c = c.arg(0)
+        return (z3.is_const(c) and c.decl().kind() == z3.Z3_OP_UNINTERPRETED and c.sort() == z3.BoolSort()
+                and c.decl().name() not in self.pc_consts)
 
     def feasible(self, cond=None):
         r = self.solver.check() if cond is None else self.solver.check(cond)
@@ -164,7 +194,7 @@ class Path:
         if pos < len(self.prefix):
             d, wf = self.prefix[pos]
         else:
-            if _has_quantifier(c):
+            if _has_quantifier(c) or self._free_atom(c):
                 t_ok = f_ok = True
             else:
                 t_ok = self.feasible(c)
@@ -188,6 +218,7 @@ class Path:
         self.decisions.append((d, wf))
         lit = c if d else z3.Not(c)
         self.pc.append(lit)
+        self._note_consts(lit)
         if not _has_quantifier(lit):
             self.solver.add(lit)
         return d
@@ -235,6 +266,8 @@ class Path:
             return z3.Length(v.z) > 0
         if isinstance(v, SSeq):
             return zint(v.len) > 0 if not isinstance(v.len, int) else v.len > 0
+        if isinstance(v, MList):
+            return self.truth(v.seq)
         if isinstance(v, SUnion):
             return z3.Or(*[z3.And(g, zbool(self.truth_nofork(x))) for g, x in v.alts])
         if isinstance(v, SObj):
@@ -250,6 +283,10 @@ class Path:
             return z3.Or(*[zint(self.seq_len(p)) > 0 for p in v.parts])
         if isinstance(v, (EnumVal, SEnum, Closure, ClassRef, Builtin, BoundMethod, ModuleRef)):
             return True
+        if isinstance(v, SAny):
+            if "truth" not in v.memo:
+                v.memo["truth"] = z3.Bool(self._fresh_name(f"any_truth_{v.origin}"))
+            return v.memo["truth"]
         if isinstance(v, Opaque):
             if str(v.tag).startswith("lenient:"):
                 raise Unsupported(f"truth of opaque {v.tag}")
@@ -336,6 +373,14 @@ class Path:
                 cs = [zbool(self.eq(self.seq_at(a, i), self.seq_at(b, i))) for i in range(la)]
                 return z3.And(*cs) if cs else True
             raise Unsupported("== on symbolic-length sequences (use seq_eq in contracts)")
+        if isinstance(a, SAny) or isinstance(b, SAny):
+            if a is b:
+                return True
+            o, other = (a, b) if isinstance(a, SAny) else (b, a)
+            key = ("eq", id(other) if not isinstance(other, (str, int, bool, type(None))) else other)
+            if key not in o.memo:
+                o.memo[key] = z3.Bool(self._fresh_name(f"any_eq_{o.origin}"))
+            return o.memo[key]
         if isinstance(a, Opaque) and isinstance(b, Opaque):
             if a is b:
                 return True
@@ -358,6 +403,17 @@ class Path:
             if isinstance(a, SUnion):
                 return z3.Or(*[z3.And(g, zbool(self.identical(x, b))) for g, x in a.alts])
             return z3.Or(*[z3.And(g, zbool(self.identical(a, x))) for g, x in b.alts])
+        if isinstance(a, SAny) or isinstance(b, SAny):
+            if a is b:
+                return True
+            o, other = (a, b) if isinstance(a, SAny) else (b, a)
+            key = ("is", id(other) if not isinstance(other, (str, int, bool, type(None))) else other)
+            if key not in o.memo:
+                o.memo[key] = z3.Bool(self._fresh_name(f"any_is_{o.origin}"))
+                if other is None:
+                    # None is falsy
+                    self.assume(z3.Implies(o.memo[key], z3.Not(zbool(self.truth(o)))))
+            return o.memo[key]
         if a is None or b is None:
             return a is None and b is None
         if isinstance(a, (bool, SBool)) and isinstance(b, (bool, SBool)):
@@ -501,6 +557,10 @@ class Path:
 
     def to_seq(self, v, kind=None):
         """View an iterable as SSeq/list (no copy for concrete)."""
+        if isinstance(v, MList):
+            v = v.seq
+            if isinstance(v, list):
+                return list(v)
         if isinstance(v, (list, tuple)):
             return v
         if isinstance(v, SSeq):
@@ -773,6 +833,8 @@ class Path:
         from . import models
         if isinstance(o, models.SuperProxy):
             return models.super_getattr(self, o, name)
+        if isinstance(o, SAny):
+            return models.any_getattr(self, o, name)
         if isinstance(o, Opaque) and str(o.tag).startswith("lenient:"):
             return Opaque(f"{o.tag}.{name}")
         r = models.value_getattr(self, o, name)
@@ -840,6 +902,9 @@ class Path:
             writer = self.frame.func.qualname if self.frame.func else "<module>"
             self.trace.append(("write", full, writer, value))
             ext[full] = value
+            return
+        if isinstance(o, SAny):
+            self.ghost.setdefault("any_writes", []).append((o, name))
             return
         if isinstance(o, Opaque) and str(o.tag).startswith("lenient:"):
             self.trace.append(("opaque-write", o.tag, name))
@@ -924,6 +989,9 @@ class Path:
 
     def _resolve_global(self, mi, name):
         from . import models
+        gv = self.ghost.get("global_values")
+        if gv is not None and f"{mi.name}:{name}" in gv:
+            return gv[f"{mi.name}:{name}"]      # contract-supplied abstraction of a module-level table (stated in its trusted base)
         hook = self.opaque_hooks.get(f"{mi.name}:{name}")
         if hook is not None:
             return Builtin(f"{mi.name}:{name}", hook)
@@ -1184,6 +1252,9 @@ class Path:
             return f.fn(self, list(args), kwargs)
         if isinstance(f, ClassRef):
             return self.instantiate(f, args, kwargs)
+        if isinstance(f, SAny):
+            from . import models as _m
+            return _m.any_call(self, f, args, kwargs)
         if isinstance(f, Opaque) and str(f.tag).startswith("lenient:"):
             return Opaque(f"{f.tag}()")
         if isinstance(f, SObj):
@@ -1981,10 +2052,13 @@ class Explorer:
     """Runs a driver over all feasible paths (fork by replaying decision prefixes)."""
 
     def __init__(self, index: SourceIndex, max_paths=20000, feas_timeout_ms=250,
-                 max_call_depth=40, max_steps=200000, max_unroll=64, shard=(0, 0)):
+                 max_call_depth=40, max_steps=200000, max_unroll=64, shard=(0, 0), initial_work=None, split_until=None, id_base=0, time_budget_s=None):
+        self.time_budget_s = time_budget_s
         self.shard = shard
         self.index = index
-        self.work: list[list] = [[]]
+        self.work: list[list] = [list(p) for p in initial_work] if initial_work is not None else [[]]
+        self.split_until = split_until   # breadth-first until this many pending prefixes exist, then stop (they go to sub-tasks)
+        self.id_base = id_base
         self.max_paths = max_paths
         self.feas_timeout_ms = feas_timeout_ms
         self.max_call_depth = max_call_depth
@@ -2003,13 +2077,22 @@ class Explorer:
         """driver(P) -> None.  Returns list of (Path, outcome)."""
         results = []
         n = 0
+        import time as _time
+        t_start = _time.time()
         while self.work:
-            prefix = self.work.pop()
+            if self.time_budget_s is not None and _time.time() - t_start > self.time_budget_s:
+                break   # leftover prefixes are handed back to the scheduler
+            if self.split_until is not None:
+                if len(self.work) >= self.split_until:
+                    break
+                prefix = self.work.pop(0)
+            else:
+                prefix = self.work.pop()
             n += 1
             if n > self.max_paths:
                 self.unsupported.append(("<explorer>", f"path budget {self.max_paths} exceeded"))
                 break
-            P = Path(self, prefix, n)
+            P = Path(self, prefix, self.id_base + n)
             try:
                 driver(P)
                 status = "ok"
